@@ -61,6 +61,9 @@ import (
 
 	"verifharness/hx"
 
+	// the root package registers the native runtime (AST/lexer/parser classes that macros call
+	// at compile time), exactly as cmd/elk does
+	_ "github.com/elk-language/elk"
 	"github.com/elk-language/elk/bitfield"
 	"github.com/elk-language/elk/lexer"
 	"github.com/elk-language/elk/parser"
@@ -125,6 +128,9 @@ func guard(f func() string) (res string) {
 				}
 			}
 			res = "panic:" + site + ":" + firstLine(fmt.Sprint(r))
+			if os.Getenv("C03_TRACE") != "" { // debugging aid: full stack of a recovered panic
+				fmt.Fprintf(os.Stderr, "%s\n%s\n", res, debug.Stack())
+			}
 		}
 	}()
 	return f()
@@ -133,6 +139,7 @@ func guard(f func() string) (res string) {
 var regexFlagBytes = []uint8{0, 1, 2, 4, 8, 16, 32, 0x3f, 0x15, 0xff}
 
 // The stages are named functions so that a stack dump of a hung or dead worker tells the stage.
+//
 //go:noinline
 func stageLex(src string) string {
 	r := "ok"
@@ -211,6 +218,10 @@ func workerMain() {
 	installSampler()
 	in := bufio.NewReaderSize(os.Stdin, 1<<20)
 	out := bufio.NewWriter(os.Stdout)
+	// package initialisation (the native global environment) costs up to 1-2 s of CPU under load:
+	// tell the driver when it is over so that it is not charged to the first input
+	fmt.Fprintf(out, "R\n")
+	out.Flush()
 	for {
 		line, err := in.ReadString('\n')
 		line = strings.TrimRight(line, "\r\n")
@@ -299,6 +310,11 @@ func startWorker() *wproc {
 			}
 		}
 	}()
+	// wait for the "R" (ready) line
+	select {
+	case <-w.lines:
+	case <-time.After(180 * time.Second):
+	}
 	return w
 }
 
